@@ -18,8 +18,8 @@
         denotes by construction (string contents, names)
      7  as 0, and the rendering puts '(' directly after FILTER / SORT where
         the canonical text does not (recorded finding)
-     101 skipped: as 1 or 4 on a text where '?' after ')' needs unbounded
-        look-ahead *)
+   (an out-of-fuel run of the reference parser counts as "not well-formed"
+   here and so shows up as kind 1 or 4; it never happens) *)
 From Ferret Require Import Render Check.C05.
 From Ferret Require Export Check.Common.
 
@@ -53,7 +53,7 @@ Fixpoint check_alts (i j : N) (tc : toks) (pc : option program) (alts : list (by
              if same_impl then []
              else if paren_after_clause_kw ts && negb (paren_after_clause_kw tc) then [(7%N, i, j)]
              else [(0%N, i, j)]
-           else if q_after_paren ts then [(101%N, i, j)] else [(1%N, i, j)])
+           else [(1%N, i, j)])
       end ++ check_alts i (j + 1)%N tc pc r
   end.
 
@@ -66,7 +66,7 @@ Definition check_case (i : N) (c : c06case) : list (N * N * N) :=
       (if kinds_agree tc ks then [] else [(5%N, i, 0%N)]) ++
       match ast with
       | Some a => if same_program pc (Some a) then []
-                  else if q_after_paren tc then [(101%N, i, 0%N)] else [(4%N, i, 0%N)]
+                  else [(4%N, i, 0%N)]
       | None => match pc with Some _ => [] | None => [(1%N, i, 0%N)] end
       end ++
       (if (expect =? 2)%N then [(6%N, i, 0%N)] else []) ++
